@@ -313,3 +313,73 @@ def threads(w, seed, spec):
         fails.append('after all threads and tasks: not the defaults')
     _ = orig, rec
     return fails[:8]
+
+
+def jit_capture(w, seed, spec):
+    """capture at creation must survive jit caching: two lazy inverses of the same operator, created in Config blocks
+    that differ in exactly one setting, passed as ARGUMENTS to one jitted function (both orders, jax.jit and
+    equinox.filter_jit): each application must use the setting of its own creation block"""
+    import equinox
+    from furax import Config
+    from furax._base.core import InverseOperator
+    fails: list = []
+    orig, rec = _patched_solve()
+    lx.linear_solve = rec
+    A = _operator()
+    x = jnp.array([1., 2, 3])
+    log: list = []
+
+    def cb(name):
+        def f(solution):
+            log.append(name)
+        return f
+    variants = {
+        'solver_callback': (cb('first'), cb('second')),
+        'solver': (lx.CG(rtol=1e-5, atol=1e-5, max_steps=100), lx.CG(rtol=1e-5, atol=1e-5, max_steps=101)),
+        'solver_throw': (False, True),
+        'solver_options': ({'note': 1}, {'note': 2}),
+    }
+    first = w.get('differs_in') or spec.get('field')
+    order = ([first] if first in variants else []) + [k for k in variants if k != first]
+    try:
+        for name in order:
+            v1, v2 = variants[name]
+            with Config(**{name: v1}):
+                inv1 = InverseOperator(A)
+            with Config(**{name: v2}):
+                inv2 = InverseOperator(A)
+            if inv1.config == inv2.config or not (inv1.config != inv2.config):
+                fails.append(f'configurations differing only in {name} compare equal')
+            for jit_name, jit in (('jax.jit', jax.jit), ('equinox.filter_jit', equinox.filter_jit)):
+                for a, b, tags in ((inv1, inv2, ('first', 'second')), (inv2, inv1, ('second', 'first'))):
+                    f = jit(lambda o, v: o(v))
+                    del _SOLVES[:]
+                    del log[:]
+                    try:
+                        ya = f(a, x)
+                        jax.effects_barrier()
+                        yb = f(b, x)
+                        jax.effects_barrier()
+                    except Exception as e:      # noqa: BLE001
+                        fails.append(f'{jit_name}, differing in {name}: {type(e).__name__}: {str(e)[:80]}')
+                        continue
+                    if name == 'solver_callback':
+                        if log != list(tags):
+                            fails.append(f'{jit_name}: inverses created under blocks differing only in solver_callback, passed '
+                                         f'as arguments to one jitted function: callbacks called {log}, expected {list(tags)} '
+                                         f'(the second inverse reports to the first block\'s callback)')
+                    else:
+                        key = {'solver': 'solver', 'solver_throw': 'throw', 'solver_options': 'options'}[name]
+                        want = [getattr(a.config, name), getattr(b.config, name)]
+                        got = [k.get(key) for k in _SOLVES]
+                        same = len(got) == 2 and all(g is w_ or g == w_ for g, w_ in zip(got, want))
+                        if not same:
+                            fails.append(f'{jit_name}: inverses differing only in {name} passed as arguments to one jitted '
+                                         f'function: traces used {got}, expected {want} (trace shared between the two)')
+                    if not (np.allclose(np.asarray(A(ya)), [1, 2, 3], atol=1e-3) and np.allclose(np.asarray(A(yb)), [1, 2, 3], atol=1e-3)):
+                        fails.append(f'{jit_name}, differing in {name}: wrong solution')
+            if len(fails) > 5:
+                break
+    finally:
+        lx.linear_solve = orig
+    return fails[:8]
